@@ -74,15 +74,18 @@ MStepF(mm, ss, s, n) ==
            [] n.k = "N"           -> R([ss EXCEPT !.won = @ + 1], <<[k |-> "IC", v |-> ss.won, c |-> c], N(1000 + ss.won + 1, c)>>)
            \* an error or a completion of the source or of the boundary completes the current window, then ends the output (pinned)
            [] OTHER               -> R(ended1, <<[k |-> "IC", v |-> ss.won, c |-> c], n>>)
-    [] mm.op = "GroupBy" ->
+    [] mm.op \in {"GroupBy", "GroupByLeave"} ->
          \* single source, higher-order output flattened like WindowWhen: key = v % 2, group g = position of the key in ss.buf (creation order).
          \* A new group is handed to the observer with its first value already inside; both terminals reach the output first, then every
          \* group (IE(g) / IC(g)); the order among the groups is not fixed by the code (the replayer sorts it).
+         \* "GroupByLeave": the observer unsubscribes from every group after the first value it received from it: later values of that key
+         \* stay inside the group (nobody listens) - they never open a second group for the same key - and a group that was left gets no terminal.
          LET key == v % 2
+             left == mm.op = "GroupByLeave"
              has == \E g \in 1..Len(ss.buf) : ss.buf[g] = key
              gi == IF has THEN CHOOSE g \in 1..Len(ss.buf) : ss.buf[g] = key ELSE Len(ss.buf) + 1
-             groups(kk) == [g \in 1..Len(ss.buf) |-> [k |-> kk, v |-> g, c |-> c]]
-         IN CASE n.k = "N" -> IF has THEN R(ss, <<[k |-> "I", v |-> 100 * gi + v, c |-> c]>>)
+             groups(kk) == IF left THEN <<>> ELSE [g \in 1..Len(ss.buf) |-> [k |-> kk, v |-> g, c |-> c]]
+         IN CASE n.k = "N" -> IF has THEN R(ss, IF left THEN <<>> ELSE <<[k |-> "I", v |-> 100 * gi + v, c |-> c]>>)
                               ELSE R([ss EXCEPT !.buf = Append(@, key)], <<N(1000 + gi, c), [k |-> "I", v |-> 100 * gi + v, c |-> c]>>)
               [] n.k = "E" -> R(ended1, <<n>> \o groups("IE"))
               [] OTHER     -> R(ended1, <<n>> \o groups("IC"))
